@@ -31,6 +31,7 @@ type exec struct {
 	wantAck    bool
 	sawMove    bool
 	stop       bool
+	labCur     int // prompt lab: instruction being stepped
 }
 
 var cmdSets = map[string]map[string]int{ // command -> number of required arguments
@@ -1165,6 +1166,12 @@ func tailStr(s string, n int) string {
 
 func (e *Engine) Execute(tr core.Trace, ctx *core.Ctx) {
 	t := tr.(*Trace)
+	if len(t.Lab) > 0 {
+		curTrace = t
+		x := &exec{ctx: ctx, t: t, tr: newTracker()}
+		x.promptLab(t)
+		return
+	}
 	if t.Desc == nil {
 		return
 	}
